@@ -146,6 +146,7 @@ def pin_inputs(L: Logic, probes, data, world: World):
     U = L.universe
     k = L.k
     hyps += _tab1(L, L.is_intervention, world.interventions)
+    hyps += _tab1(L, L.is_cf, set())       # the finite worlds contain plain variables (and Intervention objects) only
     rank = {n: r for r, n in enumerate(world.order)}
     hyps += [L.vlt(U[i], U[j]) == z3.BoolVal(rank[i] < rank[j]) for i in range(k) for j in range(k)]
     for p in probes:
@@ -275,6 +276,8 @@ def from_real(L: Logic, world: World, r, shape=None):
             return VSet(_pred2(L, [(ix(a), ix(b)) for a, b in r]), arity=2, kind="list")
         if isinstance(shape, VTuple) and isinstance(r, tuple):
             return VTuple([from_real(L, world, x, s) for x, s in zip(r, shape.items)])
+        if isinstance(r, tuple) and any(not isinstance(e, dsl.Variable) for e in r):
+            return VTuple([from_real(L, world, x, None) for x in r])      # a heterogeneous result tuple
         if any(not isinstance(e, dsl.Variable) for e in r):
             raise OutOfSubset(f"cannot read back a sequence of {type(r[0]).__name__}")
         idxs = [ix(e) for e in r]
